@@ -1354,6 +1354,13 @@ func (c *Context) Quantize(d, x *Decimal, exp int32) (Condition, error) {
 func (c *Context) quantize(d, v *Decimal, exp int32) Condition {
 	diff := exp - v.Exponent
 	d.Set(v)
+	if d.IsZero() {
+		// A zero has no digits to lose and needs no padding: only its
+		// exponent changes and no condition is raised, however far the
+		// two exponents are apart.
+		d.Exponent = exp
+		return 0
+	}
 	var res Condition
 	if diff < 0 {
 		if diff < MinExponent {
